@@ -218,36 +218,46 @@ func runOverflowShape(c *core.Case, res *core.Result, name string) *core.Result 
 			break
 		}
 	}
-	// use up the meta area as well (overwrites need write-ahead pages) until no
-	// page at all is free: the header then has no free list but a meta area.
-	// Close and reopen in that state.
-	for round := 0; round < 40; round++ {
+	// Use up the rest of the file until no page at all is free, the last pages
+	// going to the meta area (an overwrite needs a write-ahead page and a mapping
+	// page): the header then has a meta area but no free list. Close and reopen
+	// in that state.
+	for round := 0; round < 60; round++ {
 		s := w.F.VerifSnapshot()
-		if s.MetaAvail == 0 && s.DataAvail == 0 {
+		end := s.DataEnd
+		if s.MetaEnd > end {
+			end = s.MetaEnd
+		}
+		room := 0
+		if uint(end) < s.MaxPages {
+			room = int(s.MaxPages) - int(end)
+		}
+		avail := int(s.DataAvail) + room
+		if avail == 0 && s.MetaAvail == 0 {
 			res.Add("states_without_any_free_page", 1)
-			if s.FreelistRoot == 0 {
-				res.Add("states_without_free_list_root", 1)
+			if s.FreelistRoot == 0 && s.MetaTotal > 0 {
+				res.Add("states_with_meta_area_but_no_free_list", 1)
 			}
 			break
 		}
 		if !w.Begin(txfile.TxOptions{WALLimit: 1000}) {
 			return done()
 		}
-		n := int(s.MetaAvail)
-		if n > 2 {
-			n = 1 + r.Intn(n-1)
-		}
-		cw := w.candWrite()
-		for i := 0; i < n && i < len(cw); i++ {
-			if !w.Write(cw[(i*7+round)%len(cw)], 0, 0) {
+		if avail > 2 {
+			if !w.Alloc(avail-2, 1) {
+				return done()
+			}
+		} else if cw := w.candWrite(); len(cw) > 0 {
+			if !w.Write(cw[(round*7)%len(cw)], 0, 0) {
 				return done()
 			}
 		}
-		if s.DataAvail > 0 && !w.Alloc(int(s.DataAvail), 1) {
-			return done()
-		}
+		before := w.Commits
 		if !w.End(OCommit) {
 			return done()
+		}
+		if w.Commits == before && avail <= 2 {
+			break // no room for another overwrite
 		}
 	}
 	if !w.Reopen() {
